@@ -31,7 +31,7 @@ class Trend(Family):
     doc = "process.trend / Weaver.trend with an uninterpreted trend function"
 
     def configs(self, tier):
-        Ls = (2, 3, 4) if tier == "quick" else (2, 3, 4, 5, 6)
+        Ls = (2, 3, 4, 5, 6) if tier == "quick" else (2, 3, 4, 5, 6, 8, 10)
         return [{"L": L, "normalized": nz, "via": via} for L in Ls for nz in (False, True) for via in ("process", "weaver")]
 
     def run(self, ctx, inst, L, normalized, via):
@@ -76,7 +76,7 @@ class ShiftScale(Family):
     doc = "Weaver.shift_x/shift_y/scale_x/scale_y with symbolic parameters"
 
     def configs(self, tier):
-        return [{"L": L, "op": op} for L in ((2, 3) if tier == "quick" else (2, 3, 5))
+        return [{"L": L, "op": op} for L in ((2, 3, 5) if tier == "quick" else (2, 3, 5, 8))
                 for op in ("shift_x", "shift_y", "scale_x", "scale_y")]
 
     def run(self, ctx, inst, L, op):
@@ -146,7 +146,7 @@ META = {
                    "distinct argument term), so y'_i = y_i + f(x_i) [or f(x_i/(x_last-x_first))], zero-trend identity "
                    "and additivity hold for every pure callable. Normalisation: min/max are located by NumPy's own "
                    "reductions (each comparison forks), claims are non-linear but tiny.",
-    "bounds": {"quick": "series of 2..4 points", "thorough": "series of 2..6 points (normalize: 2..5)"},
+    "bounds": {"quick": "series of 2..6 points (normalize: 2..4)", "thorough": "series of 2..10 points (normalize: 2..5)"},
     "outside": ["longer series", "impure trend callables", "float rounding"],
     "assumptions": ["x strictly increasing", "normalize: array not constant and min_val < max_val (documented use)",
                     "scale != 0"],
